@@ -753,9 +753,11 @@ func c31Exec(c *c31Case) *c31Result { //nolint:gocognit,cyclop,maintidx
 	}
 	sb := samplebuilder.New(c.MaxLate, dep, c31SampleRate, opts...)
 
+	// maxLate 0/1: one cause (the purge loop steps filled.head/active.head past the tail, packets are orphaned in the ring
+	// and come out much later) shows as either symptom, so both share one signature keyed by the input class.
 	generic := func(sig string) string {
 		if c.MaxLate <= 1 {
-			return sig + ":maxlate<=1"
+			return "order-or-single-use-broken:maxlate<=1"
 		}
 
 		return sig
